@@ -1,3 +1,45 @@
-Require Import Base Opcode Tables Ops Tree Opt Flat Run.
-Example placeholder_C08 : True. Proof. exact I. Qed.
-Print Assumptions placeholder_C08.
+(* C08 — Compile is a pure, deterministic function of config contents and source.
+   PARTIAL BY NATURE. In the model Compile is a Gallina function of (switches, stateless list, registered names,
+   costs, tree): purity and determinism hold by construction, and what IS proved is the part with content: the
+   in-source directives denote exactly a setting of the switches, affect only the compilation's own copy
+   (`apply_directives` returns a new option list), and the optimiser reads nothing but the switches, the stateless
+   list, the registered names and the costs. That the Go Compile never writes the caller's Config, that CopyConfig /
+   ExtendConf share no mutable state, and determinism under concurrent compilation are memory-level facts: they are
+   checked on every run by histories over shared configs with deep snapshots, mutation of copies and sources, and
+   concurrent compilation under the race detector. Proofs: Proofs/DirectivesProofs.v. *)
+Require Import Base Tables Ops Tree Opt Directives DirectivesProofs.
+Open Scope Z_scope.
+
+Theorem C08_ordinary_comment : forall opts cmt, strip_prefix (ss ";;;;") (trim cmt) = None -> apply_comment opts cmt = Some opts.
+Proof. exact ordinary_comment. Qed.
+
+Theorem C08_optimize_sets_all : forall opts b n, In n optimizations_order ->
+  switch (fold_left (fun o m => set_opt o m b) optimizations_order opts) n = b.
+Proof. exact optimize_sets_all. Qed.
+
+Theorem C08_item_sets : forall opts k v b name, parse_bool (trim v) = Some b -> trim k = ss name -> In name optimizations_order ->
+  str_eqb (ss name) (ss opt_all_switch) = false ->
+  forall item, split 58 item = [k; v] ->
+  exists opts', apply_item opts item = Some opts' /\ switch opts' (str_to_string (ss name)) = b /\
+                (forall n, n <> str_to_string (ss name) -> switch opts' n = switch opts n).
+Proof. exact item_sets. Qed.
+
+(* the optimised tree is a function of the switches, the stateless list, the registered names and the costs only:
+   equal config contents give equal programs, in any order, whatever happened before *)
+Theorem C08_optimize_depends_on_contents : forall custom cfg1 cfg2 t,
+  (forall n, In n optimizations_order -> pass_on cfg1 n = pass_on cfg2 n) ->
+  stateless cfg1 = stateless cfg2 -> registered cfg1 = registered cfg2 -> costs cfg1 = costs cfg2 ->
+  optimize custom cfg1 t = optimize custom cfg2 t.
+Proof. exact optimize_depends_on_switches. Qed.
+
+(* non-vacuity *)
+Example C08_ex :
+  option_map (fun o => map (switch o) optimizations_order)
+    (apply_directives [("reordering", true)]%string [ss ";;;; constant_folding : false , reordering:0"; ss "; plain"; ss ";;;;fast_evaluation:T"])
+  = Some [false; true; true; false] /\
+  apply_directives [] [ss ";;;; nonsense:true"] = None /\
+  apply_directives [] [ss ";;;; optimize:false"] <> None.
+Proof. vm_compute. repeat split; discriminate. Qed.
+
+Print Assumptions C08_optimize_depends_on_contents.
+Print Assumptions C08_item_sets.
